@@ -4,6 +4,7 @@ C11 — the import hook instruments exactly the named packages, only while insta
 import JaxVerif.Model.HookScope
 import JaxVerif.Generated.Hook
 import JaxVerif.Lemmas.HookScope
+import JaxVerif.Generated.HookCode
 
 namespace JV
 
@@ -60,5 +61,42 @@ theorem C11_generated_good :
 /-! non-vacuity -/
 example : shouldInstrument ["foo".toList] "foo.bar".toList = true ∧ shouldInstrument ["foo".toList] "foobar".toList = false ∧
     shouldInstrument ["foo.bar".toList] "foo".toList = false ∧ shouldInstrument ["foo".toList, "bar.baz".toList] "bar.baz.q".toList = true := by decide
+
+/-! ### the finder's two methods as written today -/
+
+theorem source_should_step (env : FEnv) (h : MName) (s : FSt) :
+    Generated.shouldLoopBody.run env (fun _ _ => .crash) { s with cur := some h } =
+      if (env.name == h || (h ++ ['.']).isPrefixOf env.name) then .retB true else .normal { s with cur := some h } := by
+  cases h1 : (env.name == h) <;> cases h2 : ((h ++ ['.']).isPrefixOf env.name) <;>
+    simp [Generated.shouldLoopBody, FStmt.run, FCond.eval, h1, h2]
+
+theorem source_should_loop (env : FEnv) : ∀ (hs : List MName) (s : FSt),
+    runModules env Generated.shouldLoopBody hs s =
+      if hs.any (fun h => env.name == h || (h ++ ['.']).isPrefixOf env.name) then .retB true
+      else .normal { s with cur := none }
+  | [], s => by simp [runModules]
+  | h :: hs, s => by
+    rw [runModules, source_should_step]
+    cases hc : (env.name == h || (h ++ ['.']).isPrefixOf env.name)
+    · simp only [Bool.false_eq_true, if_false, List.any_cons, hc, Bool.false_or]
+      rw [source_should_loop env hs]
+    · simp [List.any_cons, hc]
+
+/-- **`should_instrument` as written today**: the method translated from the current source on this run — its loop over the
+    hooked names unrolled by induction — is the model's dotted-prefix predicate, for EVERY list of hooked names and every
+    module name. `C11_dotted` is therefore a statement about the code the source contains. -/
+theorem C11_source_should (modules : List MName) (m : MName) :
+    runShould Generated.shouldCode modules m = some (shouldInstrument modules m) := by
+  unfold runShould runMethod Generated.shouldCode shouldInstrument
+  simp only [FStmt.run, source_should_loop]
+  cases modules.any (fun h => m == h || (h ++ ['.']).isPrefixOf m) <;> simp [FStmt.run]
+
+/-- **`find_spec` as written today**: the translated method claims a module (hands back a spec whose loader is the jaxtyping
+    loader) exactly when `should_instrument` says so AND the wrapped path finder found a module loaded from source; in every
+    other case it returns None (never a spec with the original loader, never an exception for a missing module). -/
+theorem C11_source_find_spec (should : Bool) (orig : Option Bool) :
+    runFindSpec Generated.findSpecCode should orig = some (should && orig == some true) := by
+  cases should <;> rcases orig with _ | _ | _ <;>
+    simp [runFindSpec, runMethod, Generated.findSpecCode, FStmt.run, FCond.eval]
 
 end JV
